@@ -238,6 +238,19 @@ def print_assumptions(prop_file):
 
 # ---------------------------------------------------------------- running cases
 
+def _big_stack():
+    # the extracted OCaml code is not tail-recursive (List.app, map, ...): long inputs need a deep stack
+    import resource
+    try:
+        resource.setrlimit(resource.RLIMIT_STACK, (resource.RLIM_INFINITY, resource.RLIM_INFINITY))
+    except (ValueError, OSError):
+        try:
+            soft, hard = resource.getrlimit(resource.RLIMIT_STACK)
+            resource.setrlimit(resource.RLIMIT_STACK, (hard, hard))
+        except (ValueError, OSError):
+            pass
+
+
 def _run_sharded(cmd, lines, shards=NPROC, timeout=3000):
     if not lines:
         return []
@@ -245,7 +258,8 @@ def _run_sharded(cmd, lines, shards=NPROC, timeout=3000):
     chunks = [lines[i::shards] for i in range(shards)]
     procs = []
     for c in chunks:
-        p = subprocess.Popen(cmd, stdin=subprocess.PIPE, stdout=subprocess.PIPE, stderr=subprocess.PIPE, text=True, env=GOENV)
+        p = subprocess.Popen(cmd, stdin=subprocess.PIPE, stdout=subprocess.PIPE, stderr=subprocess.PIPE, text=True, env=GOENV,
+                             preexec_fn=_big_stack)
         procs.append(p)
     import threading
     outs = [None] * shards
